@@ -563,6 +563,8 @@ def sort_bool(e):
     """and / or are commutative and associative: operands flattened and put in a canonical order"""
     if not isinstance(e, tuple) or not e or not isinstance(e[0], str) or e[0] in ('sym', 'num', 'nan', 'x'):
         return e
+    if e[0] == 'cmp' and e[1] in ('>', '>='):
+        return ('cmp', {'>': '<', '>=': '<='}[e[1]], sort_bool(e[3]), sort_bool(e[2]))
     if e[0] in ('and', 'or'):
         ops = []
 
@@ -815,4 +817,66 @@ def cond_truth(conds, want, env=None):
             c, t = c[1], not t
         if same(c, w):
             return t
+    return None
+
+
+def flat_conds(conds):
+    """recorded path conditions with conjunctions split and negations folded into the truth value: list of (atom Expr, truth)"""
+    out = []
+
+    def add(c, t):
+        while isinstance(c, tuple) and c and c[0] == 'not':
+            c, t = c[1], not t
+        if isinstance(c, tuple) and c and c[0] == 'and' and t:
+            add(c[1], True)
+            add(c[2], True)
+        elif isinstance(c, tuple) and c and c[0] == 'or' and not t:
+            add(c[1], False)
+            add(c[2], False)
+        else:
+            out.append((c, t))
+    for c, t in conds:
+        add(c, t)
+    return out
+
+
+def order_value(e, ranks, syms):
+    """value of an expression built from the symbols `syms` (dict Expr-text -> name) with min / max / where / comparisons, under a weak
+    ordering `ranks` (name -> rank): returns the name of the symbol it evaluates to, True/False for a boolean, or None"""
+    k = show(e)
+    if k in syms:
+        return syms[k]
+    if not isinstance(e, tuple):
+        return None
+    if e[0] == 'call' and e[1] in ('py.min', 'py.max', 'min', 'max', 'minimum', 'maximum') and len(e[2]) == 2:
+        a, b = order_value(e[2][0], ranks, syms), order_value(e[2][1], ranks, syms)
+        if a is None or b is None or a not in ranks or b not in ranks:
+            return None
+        lo = e[1].endswith(('min', 'minimum'))
+        if ranks[a] == ranks[b]:
+            return a
+        return (a if ranks[a] < ranks[b] else b) if lo else (a if ranks[a] > ranks[b] else b)
+    if e[0] == 'cmp':
+        a, b = order_value(e[2], ranks, syms), order_value(e[3], ranks, syms)
+        if a not in ranks or b not in ranks:
+            return None
+        ra, rb = ranks[a], ranks[b]
+        return {"<": ra < rb, "<=": ra <= rb, ">": ra > rb, ">=": ra >= rb, "==": ra == rb, "!=": ra != rb}[e[1]]
+    if e[0] == 'where':
+        c = order_value(e[1], ranks, syms)
+        if c is True:
+            return order_value(e[2], ranks, syms)
+        if c is False:
+            return order_value(e[3], ranks, syms)
+        return None
+    if e[0] in ('and', 'or'):
+        a, b = order_value(e[1], ranks, syms), order_value(e[2], ranks, syms)
+        if not isinstance(a, bool) or not isinstance(b, bool):
+            return None
+        return (a and b) if e[0] == 'and' else (a or b)
+    if e[0] == 'not':
+        a = order_value(e[1], ranks, syms)
+        return (not a) if isinstance(a, bool) else None
+    if e[0] == 'call' and e[1] in ('clip',) and len(e[2]) == 3:
+        return order_value(('call', 'py.min', (('call', 'py.max', (e[2][0], e[2][1])), e[2][2])), ranks, syms)
     return None
